@@ -12,6 +12,14 @@
 #![recursion_limit = "1024"]
 #![allow(clippy::all)]
 
+/// The Kani build wraps validator-level harnesses in a macro that attaches the dependency stub
+/// set; natively the real dependencies run, so the wrapper is the identity.
+macro_rules! with_validator_stubs {
+  ($item:item) => {
+    $item
+  };
+}
+
 include!(concat!(env!("OUT_DIR"), "/harness_mods.rs"));
 // harness modules refer to `crate::refmodel`
 mod api;
